@@ -53,6 +53,27 @@ Theorem C16_name_key_stable : forall h s i, i < next_id s ->
   option_map hdr (lookup N.eqb i (entries (run_history s h))) = option_map hdr (lookup N.eqb i (entries s)).
 Proof. exact name_key_stable. Qed.
 
+(* finalize is LOCAL to the call (lib.rs:685-690, 780-785 walk base_id..next_id):
+   the ids it re-inserts are those the running call created, it changes no entry,
+   no index and no id -- so whatever finalize computes for a type (bespoke impls
+   of enums, default checks) is computed once, by the call that created the type.
+   In the tie the structural key of an entry INCLUDES the finalize-computed
+   fields as of the end of its creating call, so C16_name_key_stable covers them:
+   a later call that re-finalizes an older entry disagrees with the model. *)
+Theorem C16_finalize_local : forall base s,
+  finalize_range base s = fold_left finalize_one (finalize_ids base s) s
+  /\ (forall i, In i (finalize_ids base s) -> base <= i < next_id s)
+  /\ (forall k, lookup N.eqb k (entries (finalize_range base s)) = lookup N.eqb k (entries s))
+  /\ next_id (finalize_range base s) = next_id s
+  /\ name_to_id (finalize_range base s) = name_to_id s
+  /\ type_to_id (finalize_range base s) = type_to_id s
+  /\ ref_to_id (finalize_range base s) = ref_to_id s.
+Proof. exact finalize_local. Qed.
+
+Theorem C16_finalize_skips_older_ids : forall s i, i < next_id s ->
+  forall s', next_id s <= next_id s' -> ~ In i (finalize_ids (next_id s) s').
+Proof. exact finalize_of_call_local. Qed.
+
 (* after any history of successful calls whose conversions only mention ids they
    obtained (history_ok): every child id of every entry has an entry, and every
    id below next_id has one (so finalize's unwrap, lib.rs:687/782, cannot fail
